@@ -11,6 +11,7 @@ import (
 	"errors"
 	"fmt"
 	"strings"
+	"sync/atomic"
 	"time"
 
 	config "github.com/TheCacophonyProject/go-config"
@@ -193,14 +194,43 @@ type fsmRun struct {
 	// the recording started) fails
 	preFaultPct int
 	faultRNG    *vRNG
-	keepBg       bool
-	now          time.Time
-	seq          int
-	acc          int
-	accOf        []int // seq -> accepted index or -1
-	level        uint16
+	keepBg      bool
+	now         time.Time
+	seq         int
+	acc         int
+	accOf       []int // seq -> accepted index or -1
+	level       uint16
 	// hooks for specialised harnesses
 	afterStep func(r *fsmRun, s *stepRec)
+	// test-recording requests that did not return (the service path must never block)
+	blockedRequests int
+	// see fsmTimeOnMode
+	timeOnMode int
+}
+
+var snapBlockedOnce int32
+
+// requestSnapshotBounded issues a test-recording request through the public entry point the
+// D-Bus service uses. The call has to return at once whether or not frames are flowing; if it
+// does not within 10 s the request is left pending and the script goes on (later requests in
+// this process then wait only 50 ms).
+func requestSnapshotBounded(mp *MotionProcessor) bool {
+	done := make(chan struct{})
+	go func() {
+		mp.RequestSnapshot()
+		close(done)
+	}()
+	wait := 10 * time.Second
+	if atomic.LoadInt32(&snapBlockedOnce) != 0 {
+		wait = 50 * time.Millisecond
+	}
+	select {
+	case <-done:
+		return true
+	case <-time.After(wait):
+		atomic.StoreInt32(&snapBlockedOnce, 1)
+		return false
+	}
 }
 
 func (r *fsmRun) add(which int, op sinkOp) {
@@ -232,11 +262,29 @@ func fsmRaw(kind byte, seq int, level uint16) []byte {
 	return []byte{kind, byte(seq), byte(seq >> 8), byte(seq >> 16), byte(seq >> 24), byte(level), byte(level >> 8)}
 }
 
+// fsmTimeOnMode selects what the camera's time-on telemetry looks like: 0 strictly
+// increasing (Lepton), 1 constant (the Boson parser stamps every frame with one minute),
+// 2 a counter that falls back every 7 frames without a 'clear', 3 every value twice.
+// None of them is within 10 s of the last FFC. Set per step by fsmRun.
+var fsmTimeOnMode int
+
+func fsmTimeOn(seq int) time.Duration {
+	switch fsmTimeOnMode {
+	case 1:
+		return time.Minute
+	case 2:
+		return time.Minute + time.Duration(seq%7)*111*time.Millisecond
+	case 3:
+		return time.Minute + time.Duration(seq/2)*111*time.Millisecond
+	}
+	return time.Minute + time.Duration(seq)*111*time.Millisecond
+}
+
 func fsmParse(raw []byte, out *cptvframe.Frame, edge int) error {
 	seq := int(raw[1]) | int(raw[2])<<8 | int(raw[3])<<16 | int(raw[4])<<24
 	level := uint16(raw[5]) | uint16(raw[6])<<8
 	out.Status = cptvframe.Telemetry{
-		TimeOn:      time.Minute + time.Duration(seq)*111*time.Millisecond,
+		TimeOn:      fsmTimeOn(seq),
 		LastFFCTime: time.Second,
 		FrameCount:  seq,
 	}
@@ -315,6 +363,7 @@ func (r *fsmRun) step(ev fsmEvent) *stepRec {
 	r.steps = append(r.steps, stepRec{Ev: ev, Seq: -1, Acc: -1})
 	rec := &r.steps[len(r.steps)-1]
 	r.cur, r.curRec = &rec.Ev, rec
+	fsmTimeOnMode = r.timeOnMode
 	if !ev.At.IsZero() {
 		r.now = ev.At
 	} else if ev.WinClosed {
@@ -349,7 +398,9 @@ func (r *fsmRun) step(ev fsmEvent) *stepRec {
 		case evReset:
 			r.mp.Reset(vCam{r.cfg.ResX, r.cfg.ResY, r.cfg.FPS})
 		case evSnap:
-			r.mp.StartSnapshot = true
+			if !requestSnapshotBounded(r.mp) {
+				r.blockedRequests++
+			}
 		case evQuery:
 			if _, f := r.mp.GetRecentFrame(); f != nil {
 				// the caller owns the copy and may do what it likes with it
